@@ -70,6 +70,10 @@ Example C30_ex_auto_remove :
   auto_remove_order [95; 84] [([95; 84], 2); ([66], 7); ([65], 3)] = [([65], 3); ([66], 7); ([95; 84], 2)].
 Proof. reflexivity. Qed.
 
+(* the hypothesis [closed_cells] holds of the empty recompute map (the state between bundles) *)
+Example C30_ex_closed_empty : forall E R, closed_cells E R (fun _ => None).
+Proof. intros E R d e r H. discriminate H. Qed.
+
 (* two visiting orders of the in-edges of node 1 *)
 Example C30_ex_invalidate_orders :
   let R := mkR (fun _ _ => []) (fun _ _ => []) (fun _ _ => []) in
